@@ -19,6 +19,12 @@ internal step (forward reads, Link/Write calls, backward deliveries) until none 
 harness does the same by waiting for quiescence.  The order chosen here is one fixed order; the
 real goroutines may take any (C02.node_contract is the statement that it does not matter).
 
+Refusal: in the real writer a reader that is already closed refuses a write (C01: its cell is the
+`refused` marker and does not count as an accepting reader). In this model readers are never closed
+and a write to a linked writer is handed to every linked reader (`deliver`), so a link cannot refuse:
+every cell of a new row is `none` = owed, and `gWrite` reports "accepted" exactly when the writer has
+links. No `refused` marker is needed here.
+
 Ghost state (never read by the machine itself): `log` records the derivation tree as it unfolds –
 which packets an action derived from a request (`acts`), which copies a write handed to the linked
 readers (`dels`), which packets were answered with themselves because nobody accepted them (`echo`),
@@ -52,6 +58,11 @@ structure Log where
   dels : List (Pid × List Pid) := []      -- accepted written packet ↦ the copies delivered, in target order
   echo : List (Pid × Val) := []           -- packet nobody accepted (or `Write(nil, in)`): answered with itself
   sinkAns : List (Pid × Ans) := []        -- copy delivered to a sink ↦ the sink's answer
+  owner : List (Pid × Nat) := []          -- where a packet lives: copy ↦ key of the reader it was handed to,
+                                          -- packet made by an action ↦ `qTag` of the node (never read by `refAns`)
+
+/-- owner tag of the packets the action of node `n` returns -/
+def qTag (n : Nat) : Nat := n * 64 + 63
 
 def allSome {α : Type} : List (Option α) → Option (List α)
   | [] => some []
@@ -124,14 +135,17 @@ def deliver (g : G) (key : Nat) (v : Val) (t : Tgt) : G :=
   match t with
   | .sink k =>
     { g with sinks := aset g.sinks k (getL g.sinks k ++ [(g.next, v)]), arrived := g.arrived ++ [(k, v)],
-             next := g.next + 1 }
+             next := g.next + 1,
+             log := { g.log with owner := aset g.log.owner g.next (rkeyOf (.sink k)) } }
   | .node m port =>
     match getNode g.nodes m with
     | none => { g with bad := true }
     | some nd =>
       match step nd (.deliver port { id := g.next, pay := v }) with
       | none => { g with bad := true }
-      | some (nd', _) => { g with nodes := setNode g.nodes m nd', next := g.next + 1 }
+      | some (nd', _) =>
+        { g with nodes := setNode g.nodes m nd', next := g.next + 1,
+                 log := { g.log with owner := aset g.log.owner g.next (rkeyOf (.node m port)) } }
 
 /-- deliver to every linked reader; returns the ids of the copies (every delivery takes the next id) -/
 def deliverAll (key : Nat) (v : Val) : List Tgt → G → G × List Pid
@@ -315,7 +329,8 @@ def release (g : G) (n : Nat) (r : Rel) : Option G :=
           | none => []
         let lg := match outs with
           | [] => g.log
-          | _ :: _ => { g.log with acts := aset g.log.acts p.id outs }
+          | _ :: _ => { g.log with acts := aset g.log.acts p.id outs,
+                                   owner := outs.foldl (fun m q => aset m q (qTag n)) g.log.owner }
         some (settle settleFuel (putNode { g with next := nx, log := lg } n nd' ev))
 
 /-- sink `k` answers its oldest request; `a = none` answers with the request packet itself -/
